@@ -4,6 +4,7 @@ import (
 	"bytes"
 	stdjson "encoding/json"
 	"io"
+	"strconv"
 	"strings"
 
 	"github.com/segmentio/encoding/json"
@@ -22,7 +23,51 @@ func init() {
 	ops["json.validdepth"] = func(a []string) (string, string, string) {
 		n := atoi(a[0])
 		d := []byte(strings.Repeat("[", n) + strings.Repeat("]", n))
-		return b01(json.Valid(d)), b01(stdjson.Valid(d)), "jsonDepthOver10000"
+		return b01(json.Valid(d)), b01(stdjson.Valid(d)), ""
+	}
+	// json.depth <kind> <n>: a document nested n deep ([, {"k":, mixed), through every entry point: accepted iff encoding/json accepts
+	ops["json.depth"] = func(a []string) (string, string, string) {
+		n := atoi(a[1])
+		var d []byte
+		switch a[0] {
+		case "arr":
+			d = []byte(strings.Repeat("[", n) + strings.Repeat("]", n))
+		case "obj":
+			d = []byte(strings.Repeat(`{"C":`, n) + "null" + strings.Repeat("}", n))
+		default:
+			var sb strings.Builder
+			for i := 0; i < n; i++ {
+				if i%2 == 0 {
+					sb.WriteString(`[1, `)
+				} else {
+					sb.WriteString(`{"C":`)
+				}
+			}
+			sb.WriteString("0")
+			for i := n - 1; i >= 0; i-- {
+				if i%2 == 0 {
+					sb.WriteString("]")
+				} else {
+					sb.WriteString("}")
+				}
+			}
+			d = []byte(sb.String())
+		}
+		type N struct{ C *N }
+		type SL []SL
+		var i, o strings.Builder
+		i.WriteString(b01(json.Valid(d)))
+		o.WriteString(b01(stdjson.Valid(d)))
+		for _, mk := range []func() any{func() any { return new(any) }, func() any { return new(N) }, func() any { return new(SL) },
+			func() any { return new(json.RawMessage) }, func() any { return new(struct{}) }, func() any { return new(map[string]any) }, func() any { return new([]any) }} {
+			t1, t2 := mk(), mk()
+			i.WriteString(b01(json.Unmarshal(d, t1) == nil))
+			o.WriteString(b01(stdjson.Unmarshal(d, t2) == nil))
+		}
+		var x, y any
+		i.WriteString(b01(json.NewDecoder(bytes.NewReader(d)).Decode(&x) == nil))
+		o.WriteString(b01(stdjson.NewDecoder(bytes.NewReader(d)).Decode(&y) == nil))
+		return i.String(), o.String(), ""
 	}
 	ops["json.consumer"] = func(a []string) (string, string, string) {
 		i, o := consumer(a[0], unhx(a[1]))
@@ -120,6 +165,14 @@ func runC05(h *H) {
 			if i != oo {
 				h.Fail("json.consumer", []string{cc[0], hx([]byte(cc[1]))}, i, oo)
 			}
+		}
+	}
+	for _, k := range []string{"arr", "obj", "mix"} {
+		for _, n := range []int{1, 2, 9999, 10000, 10001, 10002, 20000, 300000} {
+			h.DoRisky("json.depth", k, strconv.Itoa(n))
+		}
+		if h.Thorough() {
+			h.DoRisky("json.depth", k, strconv.Itoa(6000000))
 		}
 	}
 	// (1) exhaustive over the alphabet: all strings up to length 3 (quick) / 4 (thorough), + sampled length 4/5
